@@ -151,33 +151,60 @@ is now written as valid JSON -/
 example : Spec.accepts (prettyWrite { width := 80, maxDepth := 9, align := true } id
     (.arr [.arr [.obj [([97], .int 1)]], .arr [.arr [.arr [.int 5]]]])) = true := by decide +kernel
 
+/-- the omission rule and the key encoding of a `pretty` configuration, as the tree predicates see them -/
+def dropOf (p : POpts) : JV → Bool := omits (ojOptsOf p)
+def encOf (p : POpts) : Bytes → Bytes := fun k => jsonString k (!p.htmlUnsafe)
+
 /-- the partial theorem for `pretty.JSON` WITH alignment tables (full statement: `C04_pretty_full`,
 false). For every Width, MaxDepth, HTML-safe setting, OmitNil/OmitEmpty and iteration order the text
 is ONE valid JSON document whose reading is the tree (members in ascending key order) minus exactly
-the members OmitNil / OmitEmpty name, whenever Align is off or every alignment table of the tree is
-a table of ARRAYS (`tablesArr`: an array with two or more members has not only objects as members,
-and if it has only arrays they contain no object at any depth). This covers `checkAlign`,
-`genTables`, `updateArrayTable` and `alignArray` (columns matched by position, number cells padded
-on the left, string cells on the right, every padding within the `spaces` constant because the
-table fits the width). What is excluded is exactly `updateMapTable` / `alignMap` — tables with
-object rows or object cells — where the known finding C04-pretty-align-comma lives. -/
+the members OmitNil / OmitEmpty name, whenever Align is off or every alignment table of the tree
+(`tablesAO`, a predicate on the tree: every array with two or more members, all arrays or all
+objects) is
+* a table of arrays that contain no object at any depth, or
+* a table of flat objects (members are scalars) in which NO ROW LACKS ITS LAST COLUMN
+  (`rowsComplete`: every row shows no key, or shows the greatest encoded key shown by any row) and the
+  encoded keys of a row are ordered like its keys (`keysEncOrdered`; aligned rows follow the order of
+  the ENCODED keys, so without it the reading would list the members in another order).
+This covers `checkAlign`, `genTables`, `updateArrayTable`/`alignArray` and `updateMapTable`/`alignMap`
+for such tables: columns matched by position resp. by key, sorted, exactly the keys of the rows,
+every padding within the `spaces` constant because the table fits the width, one comma between any
+two members of a row. The known finding C04-pretty-align-comma is exactly the complement of
+`rowsComplete` (`align_witness_incomplete`: the witness of `C04_pretty_full_false` violates it; with
+it the text is valid, so a `, }` can only come from a row that lacks its last column). Not covered:
+tables whose object rows hold containers, and object cells inside tables of arrays. -/
 theorem C04_pretty_align_table_partial (p : POpts) (ord : Kvs → Kvs) (hord : IsOrder ord) (v : JV) (hv : okW v)
-    (hnt : p.align = true → tablesArr v) :
+    (hnt : p.align = true → tablesAO (dropOf p) (encOf p) v) :
     Spec.parseDoc (prettyWrite p ord v) = .one (norm (ojOptsOf p) ord v) := by
   rw [prettyWrite_eq_ptext p ord hord v hnt]
   obtain ⟨b, t, hb, hsb⟩ := ptext_head (pwOf p ord v) ord (depth v) v 0 false hv
   have hp := parse_ptext jMap_safe pretty_seps_ws (pwOf p ord v) ord hord (depth v + 1) v 0 false
-    ((ptext (pwOf p ord v) ord (depth v + 1) v 0 false).length + 1) [] hv (by simpa [pwOf_o] using hnt)
+    ((ptext (pwOf p ord v) ord (depth v + 1) v 0 false).length + 1) [] hv hnt
     (by rw [pwOf_fuel]; omega) (Nat.lt_succ_self _) (Nat.lt_succ_self _) rfl
   simp only [List.append_nil, pwOf_o] at hp
   rw [hb] at hp ⊢
   exact parseDoc_of_pValue b t _ (startByte_ne_bom b hsb) (startByte_facts b hsb).1 hp
 
+/-- the rows `{"a":1,"b":2,"c":3}`, `{"a":1}` of the witness of `C04_pretty_full_false` are not complete:
+the second row lacks the last column `"c"` -/
+theorem align_witness_incomplete :
+    ¬ rowsComplete (dropOf { align := true }) (encOf { align := true })
+      [.obj [([97], .int 1), ([98], .int 2), ([99], .int 3)], .obj [([97], .int 1)]] := by
+  unfold rowsComplete
+  decide +kernel
+
+/-- in particular when every table of the tree is a table of arrays -/
+theorem C04_pretty_align_arrays_partial (p : POpts) (ord : Kvs → Kvs) (hord : IsOrder ord) (v : JV) (hv : okW v)
+    (hnt : p.align = true → tablesArr v) :
+    Spec.parseDoc (prettyWrite p ord v) = .one (norm (ojOptsOf p) ord v) :=
+  C04_pretty_align_table_partial p ord hord v hv
+    (fun h => tablesAO_of_tablesArr _ _ (depth v + 1) v (Nat.lt_succ_self _) (hnt h))
+
 /-- in particular when no array of the tree is a table at all (`noTable`; keys of maps are still padded) -/
 theorem C04_pretty_align_partial (p : POpts) (ord : Kvs → Kvs) (hord : IsOrder ord) (v : JV) (hv : okW v)
     (hnt : p.align = true → noTable v) :
     Spec.parseDoc (prettyWrite p ord v) = .one (norm (ojOptsOf p) ord v) :=
-  C04_pretty_align_table_partial p ord hord v hv
+  C04_pretty_align_arrays_partial p ord hord v hv
     (fun h => tablesArr_of_noTable (depth v + 1) v (Nat.lt_succ_self _) (hnt h))
 
 /-- in particular, excluding exactly `Align`, `pretty.JSON` has the property for EVERY tree -/
@@ -210,6 +237,30 @@ example : prettyWrite { align := true } id (.obj [([116], .arr [.arr [.int 1, .s
      10, 32, 32, 32, 32, 91, 49, 48, 48, 44, 32, 34, 108, 111, 110, 103, 34, 93, 44, 10, 32, 32, 32, 32, 91, 93, 10, 32,
      32, 93, 10, 125] := by decide +kernel
 
+/-- `[{"x":1,"z":"p"},{"y":2.5,"z":null},{}]`: a table of flat objects in which no row lacks the last
+column `"z"` (the third row shows no key) … -/
+example : tablesAO (dropOf { align := true }) (encOf { align := true })
+    (.arr [.obj [([120], .int 1), ([122], .str [112])], .obj [([121], .flt [50, 46, 53]), ([122], .null)], .obj []]) := by
+  simp only [tablesAO, tablesAOL, tablesAOK, and_true]
+  intro _
+  refine ⟨fun h => absurd h (by decide), fun _ => ⟨?_, ?_⟩⟩
+  · intro x hx
+    simp only [List.mem_cons, List.not_mem_nil, or_false] at hx
+    rcases hx with rfl | rfl | rfl <;> exact ⟨by decide, by unfold keysEncOrdered; decide +kernel⟩
+  · unfold rowsComplete
+    decide +kernel
+
+/-- … and with Align it is written in columns, the empty row as blanks:
+```
+[ {"x": 1,           "z": "p" }, {        "y": 2.5, "z": null}, {                           }]
+``` -/
+example : prettyWrite { align := true } id
+    (.arr [.obj [([120], .int 1), ([122], .str [112])], .obj [([121], .flt [50, 46, 53]), ([122], .null)], .obj []]) =
+    [91, 32, 123, 34, 120, 34, 58, 32, 49, 44, 32, 32, 32, 32, 32, 32, 32, 32, 32, 32, 32, 34, 122, 34, 58, 32, 34, 112, 34,
+     32, 125, 44, 32, 123, 32, 32, 32, 32, 32, 32, 32, 32, 34, 121, 34, 58, 32, 50, 46, 53, 44, 32, 34, 122, 34, 58, 32,
+     110, 117, 108, 108, 125, 44, 32, 123, 32, 32, 32, 32, 32, 32, 32, 32, 32, 32, 32, 32, 32, 32, 32, 32, 32, 32, 32, 32,
+     32, 32, 32, 32, 32, 32, 32, 125, 93] := by decide +kernel
+
 /-- `{"longer key":1,"k":[1,"a",{"x":null}],"m":[[1,2]]}` is a tree without tables … -/
 example : noTable (.obj [([108, 111, 110, 103, 101, 114, 32, 107, 101, 121], .int 1),
     ([107], .arr [.int 1, .str [97], .obj [([120], .null)]]), ([109], .arr [.arr [.int 1, .int 2]])]) := by
@@ -235,10 +286,10 @@ example : prettyWrite { omitNil := true } id
     (.obj [([97], .arr []), ([98], .obj [([99], .null)]), ([100], .null)]) =
     [123, 34, 97, 34, 58, 32, 91, 93, 44, 32, 34, 98, 34, 58, 32, 123, 125, 125] := by decide +kernel
 
-/-- streaming: when the only tables aligned are tables of arrays the chunks `pretty.WriteJSON` hands over are, joined, the
+/-- streaming: under the same condition the chunks `pretty.WriteJSON` hands over are, joined, the
 in-memory text, for every WriteLimit -/
 theorem C04_pretty_stream (p : POpts) (ord : Kvs → Kvs) (hord : IsOrder ord) (limit : Nat) (v : JV)
-    (hnt : p.align = true → tablesArr v) :
+    (hnt : p.align = true → tablesAO (dropOf p) (encOf p) v) :
     (prettyWriteTo p ord limit v).flatten = prettyWrite p ord v := by
   rw [prettyWriteTo_flatten p ord hord limit v hnt, prettyWrite_eq_ptext p ord hord v hnt]
 
